@@ -10,7 +10,8 @@ def run(run):
     components.ast_functions(run, FUNCS, run.tier, rt_quick=25, rt_thorough=150)
     n = 33 if run.tier == 'quick' else 165
     tasks = [('program', (name, seed, {})) for (name, seed) in models.programs(run.seed, n)]
-    tasks += [('program', (name, seed, {'dimension_reduction_heuristic': 'trace'})) for (name, seed) in models.programs(run.seed + 2, 11)]
+    tasks += [('program', (name, seed, {'dimension_reduction_heuristic': 'trace'})) for (name, seed) in models.programs(run.seed + 2, 12)]
+    tasks += [('program', ('T_scaled', i, {'dimension_reduction_heuristic': h})) for i in range(2) for h in (None, 'trace', 'logdet1')]
     hc.solve_scenarios(run, 'C02', tasks, 'rt-solve-instance',
                        'seeded DSL programs; after each finite solve: inner products of evaluated leaf points vs PSD projection of the Gram matrix, every handle '
                        'evaluates to the combination of its operands, every sent constraint / LMI holds, objective = smallest metric, primal <= dual (tolerance 2e-5(1+|tau|) scaled)')
